@@ -19,6 +19,7 @@ from __future__ import annotations
 import ast
 
 from .. import astutil as A
+from ..alg import Interp, Obj, Poly, RaisedInFragment, Undecided
 from ..cfg import CFG
 from ..dep import Deps
 from .c01 import registry
@@ -220,6 +221,34 @@ def run(ctx):
             t = A.unparse(n.test).replace(" ", "")
             if ("isNone" in t) and any(_exc(r) in set(repo.module("src/pyhf/exceptions/__init__.py").classes) for r in ast.walk(n) if isinstance(r, ast.Raise)):
                 checks.append(n)
+    # the merge interpreted on a requirement with two None placeholders: refused unless BOTH are configured
+    pyhf_excs = set(repo.module("src/pyhf/exceptions/__init__.py").classes)
+
+    def merged(user):
+        req = {"paramset_type": "constrained_by_normal", "n_parameters": Poly.const(1), "is_scalar": True, "inits": None, "bounds": None, "auxdata": None, "sigmas": None, "fixed": False}
+        return Interp({"paramsets_requirements": {"lumi": [dict(req)]}, "paramsets_user_configs": user, "exceptions": Obj("exceptions")}, {}, {}).run(A.strip_docstring(red.node.body))
+
+    full_cfg = {"inits": [Poly.atom("I")], "bounds": [[Poly.atom("L"), Poly.atom("H")]], "auxdata": [Poly.atom("A")], "sigmas": [Poly.atom("S")]}
+    for lab, user, must_raise in (("no entry for the parameter", {}, True), ("entry gives inits only", {"lumi": {"inits": [Poly.atom("I")]}}, True),
+                                  ("entry gives everything but sigmas", {"lumi": {k: v for k, v in full_cfg.items() if k != "sigmas"}}, True), ("entry gives every required setting", {"lumi": dict(full_cfg)}, False)):
+        site = f"{PU}::reduce_paramsets_requirements [None placeholders; {lab}]"
+        try:
+            out = merged(user)
+            if must_raise:
+                left = sorted(k for k, v in out["lumi"].items() if v is None)
+                ctx.violated(r5, red, f"None placeholder [{lab}]", "a parameter set whose required settings are not all configured is accepted: the placeholder None reaches the model and construction later dies with a TypeError (or the setting is silently missing) instead of a pyhf exception", expected="raise exceptions.InvalidModel", found=f"merged settings with None for {left}")
+            else:
+                ctx.holds(r5, site, "accepted")
+        except RaisedInFragment as e:
+            cls_ = e.exc_name.split(".")[-1]
+            if must_raise and cls_ in pyhf_excs:
+                ctx.holds(r5, site, f"refused with {cls_}")
+            elif must_raise:
+                ctx.violated(r5, red, f"None placeholder [{lab}]", "unconfigured required settings are refused with an exception that is not one of pyhf's own", expected="a class of pyhf.exceptions", found=e.exc_name)
+            else:
+                ctx.violated(r5, red, f"None placeholder [{lab}]", "a fully configured parameter set is refused", found=f"raise {e.exc_name}")
+        except (Undecided, KeyError, TypeError, AttributeError) as e:
+            ctx.unrecognised(r5, red, f"None placeholder [{lab}]", f"not interpretable: {type(e).__name__}: {e}")
     if not none_keys:
         ctx.holds(r5, "required_parset defaults", "no None placeholders")
     elif checks:
